@@ -133,6 +133,7 @@ more("C08", "(eighth round) panic values of the runtime overlay have RuntimeErro
 more("C10", "(eighth round) the local symbol of a go:linkname directive is looked up among functions without a receiver.")
 more("C11", "(eighth round) every $array[…] element access adds the same operand's $offset.")
 more("C11", "(eighth round) a js tag takes the dot notation only when every character may be part of a JavaScript identifier.")
+more("C11", "(eighth round) js.NewArrayBuffer adds the byteOffset of the backing view to the slice offset.")
 more("C12", "(eighth round) the directive-import table is consulted with the import path.")
 more("C13", "(eighth round) nosync.Map reads its map with comma-ok only.")
 more("C18", "(eighth round) isStd answers true only from the located package's Goroot flag.")
